@@ -19,6 +19,8 @@ FAMILIES = {
     # fat/protein inclusion flags say (a check that looks at the calorie label only would let them through)
     "mixp": ("billion kcals", "thousand tons", "million tons"),
     "mixf": ("billion kcals", "million tons", "thousand tons"),
+    # only partly a ratio: must be treated as an ordinary quantity (a ratio test that looks at two of the three labels would not)
+    "pratio": ("ratio", "ratio", "thousand tons"),
 }
 REFUSE = "REFUSE"
 
